@@ -232,6 +232,16 @@ async fn cell<K: Kind>(addr: SocketAddr, set: Arc<CertSet>, topic: String, comp:
     let extra: Vec<K::Item> = if mode == "duplicate" { vec![K::item(1000, size.max(8)), K::item(1001, size.max(8))] } else { Vec::new() };
     let extra_p = extra.clone();
     let mut pubtask = None;
+    // Publishing and collecting run side by side: how much the path between publisher and
+    // subscriber can hold (flow-control windows, write buffers) is not the property's business, and
+    // a publisher that waits for the subscriber to read is doing nothing wrong.
+    let pub_done = Arc::new(std::sync::atomic::AtomicBool::new(false));
+    let start = Arc::new(tokio::sync::Notify::new());
+    let n_expected = n + extra.len();
+    let pub_fut = async {
+    if mode_p != "bulk" {
+        start.notify_one();
+    }
     match mode_p.as_str() {
         // everything pushed through send_all: no flush per item, so the transport's
         // back-pressure (the subscriber is not reading yet) reaches the publisher
@@ -245,6 +255,7 @@ async fn cell<K: Kind>(addr: SocketAddr, set: Arc<CertSet>, topic: String, comp:
             }));
             // the subscriber stays idle long enough for every window on the way to fill up
             tokio::time::sleep(Duration::from_millis(1500)).await;
+            start.notify_one();
         }
         // the publisher's whole connection goes away the moment finish() has returned
         "drop-after-finish" => {
@@ -295,38 +306,77 @@ async fn cell<K: Kind>(addr: SocketAddr, set: Arc<CertSet>, topic: String, comp:
             publisher.finish().await.map_err(|e| fail("finish-error", &class, format!("publisher.finish failed: {e}")))?;
         }
     }
-    let n = n + extra.len();
-    // collect. Each next() runs in a task of its own, so that it is re-polled only when the
-    // subscriber's waker fires: a poll_next that answers Pending without arranging a wake-up
-    // shows as a missing item instead of being rescued by this harness's timer.
-    let mut got: Vec<K::Item> = Vec::new();
-    let mut sub = Some(sub);
-    while let Some(mut s) = sub.take() {
-        let wait = if got.len() < n { ARRIVAL } else { QUIET };
-        let mut h = tokio::spawn(async move {
-            let r = s.next().await;
-            (s, r)
-        });
-        match tokio::time::timeout(wait, &mut h).await {
-            Ok(Ok((s, Some(Ok(i))))) => {
-                sub = Some(s);
-                if !K::is_warm(&i) {
-                    got.push(i);
-                    if got.len() > n + 4 {
-                        break;
+    Ok::<(), Fail>(())
+    };
+    let col_fut = async {
+        start.notified().await;
+        let n = n_expected;
+        // collect. Each next() runs in a task of its own, so that it is re-polled only when the
+        // subscriber's waker fires: a poll_next that answers Pending without arranging a wake-up
+        // shows as a missing item instead of being rescued by this harness's timer.
+        let mut got: Vec<K::Item> = Vec::new();
+        let mut sub = Some(sub);
+        'items: while let Some(mut s) = sub.take() {
+            let mut h = tokio::spawn(async move {
+                let r = s.next().await;
+                (s, r)
+            });
+            // the clock for an item starts when the publisher is through (it may legitimately be
+            // paused, or be waiting for this very subscriber to read)
+            let mut since_done: Option<std::time::Instant> = None;
+            let began = std::time::Instant::now();
+            let r = loop {
+                match tokio::time::timeout(Duration::from_millis(50), &mut h).await {
+                    Ok(r) => break r,
+                    Err(_) => {
+                        if pub_done.load(Ordering::SeqCst) {
+                            let t = *since_done.get_or_insert_with(std::time::Instant::now);
+                            let wait = if got.len() < n { ARRIVAL } else { QUIET };
+                            if t.elapsed() >= wait {
+                                h.abort();
+                                break 'items;
+                            }
+                        } else if began.elapsed() > Duration::from_secs(60) {
+                            // the publisher has been stuck for a minute with the subscriber reading
+                            h.abort();
+                            break 'items;
+                        }
                     }
                 }
-            }
-            Ok(Ok((_, Some(Err(e))))) => return Err(fail("subscriber-error", &class, format!("subscriber yielded an error: {e}"))),
-            Ok(Ok((_, None))) => break,
-            Ok(Err(e)) if e.is_panic() => return Err(fail("subscriber-panicked", &class, format!("the task polling the subscriber panicked after {} items: {e}", got.len()))),
-            Ok(Err(e)) => return Err(fail("setup", "task", e.to_string())),
-            Err(_) => {
-                h.abort();
-                break;
+            };
+            match r {
+                Ok((s, Some(Ok(i)))) => {
+                    sub = Some(s);
+                    if !K::is_warm(&i) {
+                        got.push(i);
+                        if got.len() > n + 4 {
+                            break;
+                        }
+                    }
+                }
+                Ok((_, Some(Err(e)))) => return Err(fail("subscriber-error", &class, format!("subscriber yielded an error: {e}"))),
+                Ok((_, None)) => break,
+                Err(e) if e.is_panic() => return Err(fail("subscriber-panicked", &class, format!("the task polling the subscriber panicked after {} items: {e}", got.len()))),
+                Err(e) => return Err(fail("setup", "task", e.to_string())),
             }
         }
-    }
+        Ok::<Vec<K::Item>, Fail>(got)
+    };
+    let pub_bounded = async {
+        // with the subscriber reading, no publisher operation takes a minute (the pause cell sleeps 15 s)
+        let r = match tokio::time::timeout(Duration::from_secs(90), pub_fut).await {
+            Ok(r) => r,
+            Err(_) => Err(fail("send-hang", &class, "the publisher's send()/finish() calls did not return within 90 s although the subscriber was reading all the time".into())),
+        };
+        pub_done.store(true, Ordering::SeqCst);
+        r
+    };
+    let (pr, cr) = futures::join!(pub_bounded, col_fut);
+    pr?;
+    let got = cr?;
+    let mut got = got;
+    let n = n_expected;
+    let _ = n;
     if let Some(t) = pubtask.take() {
         match tokio::time::timeout(net::LONG, t).await {
             Ok(r) => r.map_err(|e| fail("setup", "task", e.to_string()))??,
